@@ -73,6 +73,8 @@ theorem Inv.congr_waiting {s s' : State} {m P} (hI : Inv s m P) (ha : s'.arrs = 
     intro h1 h2
     obtain ⟨hw0, b, hb1, hb2, hb3⟩ := hI.rwWait x hx hxo h1 h2
     exact ⟨hw0, b, hb1, by rw [hS.aid, hw]; exact hb2, by rw [hS.aid]; exact hb3⟩
+  · intro i t hl
+    rw [ht] at hl; rw [ha]; exact hI.trkLt i t hl
 
 /-- a state obtained by changing the counter at one address only -/
 theorem inv_counter_at {s s' : State} {m P} (hI : Inv s m P) {o : Nat} (ho : isAlive s o = true)
@@ -151,6 +153,8 @@ theorem inv_counter_at {s s' : State} {m P} (hI : Inv s m P) {o : Nat} (ho : isA
         · simp [hb, hpos]
         · simp only [hb, ↓reduceIte]; exact h
       · right; exact h
+  · intro i t hl
+    rw [ht] at hl; rw [ha]; exact hI.trkLt i t hl
 
 /-- the base of a live view whose original flag is writeable: read-only means locked -/
 theorem base_locked_of_ro {s : State} {m} (hI : Inv s m (fun _ _ => False)) {o b : Nat} (ho : isAlive s o = true)
@@ -255,5 +259,424 @@ theorem inv_wait {s s' : State} {m} (hI : Inv s m (fun _ _ => False)) {o b : Nat
           have : b' ≠ o := fun e => by rw [e, hb] at hb'b; cases hb'b
           simp only [hne b' hb'a this, ↓reduceIte]; exact h
         · exact h.elim
+  · intro i t hl
+    rw [ht] at hl; rw [ha]; exact hI.trkLt i t hl
+
+/-- last release of an array that can be made writeable at once (owner, or view of a writeable base) -/
+theorem inv_unlockSelf {s s' : State} {m} (hI : Inv s m (fun _ _ => False)) {o : Nat} (ho : isAlive s o = true)
+    (horig : origOf s o = true) (hc1 : cget s.counter (aidOf s o) = 1)
+    (hS : SameStatic s s')
+    (hwo : ∀ x, wOf s' x = if x = o then true else wOf s x)
+    (heo : ∀ x, enteredOf s' x = enteredOf s x)
+    (hc : ∀ i, cget s'.counter i = if i = aidOf s o then 0 else cget s.counter i)
+    (ht : ∀ i, lookup i s'.tracker = if i = aidOf s o then none else lookup i s.tracker)
+    (hw : s'.waiting = s.waiting) :
+    Inv s' (fun x => if x = o then m x - 1 else m x)
+      (fun b i => b = o ∧ baseOf s o = none ∧ i ∈ wget s.waiting (aidOf s o)) := by
+  have hne : ∀ x, isAlive s x = true → x ≠ o → aidOf s x ≠ aidOf s o :=
+    fun x hx hxo e => hxo (hI.aidInj x o hx ho e)
+  constructor
+  · intro o1 o2 h1 h2 e
+    rw [hS.alive] at h1 h2; rw [hS.aid, hS.aid] at e
+    exact hI.aidInj o1 o2 h1 h2 e
+  · intro x b hx hb
+    rw [hS.alive] at hx; rw [hS.base] at hb
+    rw [hS.alive, hS.base, hS.orig, hS.orig]
+    exact hI.baseOk x b hx hb
+  · intro i t hl hta
+    rw [hS.alive] at hta; rw [hS.aid]
+    rw [ht] at hl
+    by_cases hi : i = aidOf s o
+    · simp [hi] at hl
+    · simp only [hi, ↓reduceIte] at hl
+      exact hI.trkAid i t hl hta
+  · intro i t x hl hx hxa
+    rw [hS.alive] at hx; rw [hS.aid] at hxa
+    rw [ht] at hl
+    by_cases hi : i = aidOf s o
+    · simp [hi] at hl
+    · simp only [hi, ↓reduceIte] at hl
+      exact hI.trkUniq i t x hl hx hxa
+  · intro k v x hv hx hxa
+    rw [hw] at hv; rw [hS.alive] at hx; rw [hS.aid] at hxa
+    obtain ⟨b, hb1, hb2⟩ := hI.waitOk k v x hv hx hxa
+    exact ⟨b, by rw [hS.base]; exact hb1, by rw [hS.aid]; exact hb2⟩
+  · intro x hx hxo
+    rw [hS.alive] at hx; rw [hS.orig] at hxo
+    have hxne : x ≠ o := fun e => by rw [e, horig] at hxo; cases hxo
+    rw [hS.aid, hwo, hc, ht]
+    simp only [hxne, hne x hx hxne, ↓reduceIte]
+    exact hI.ro x hx hxo
+  · intro x hx hxo
+    rw [hS.alive] at hx; rw [hS.orig] at hxo
+    rw [hS.aid, hc]
+    by_cases hxe : x = o
+    · subst hxe
+      simp only [↓reduceIte]
+      rw [← hI.rwCnt x hx hxo]; omega
+    · simp only [hxe, hne x hx hxe, ↓reduceIte]
+      exact hI.rwCnt x hx hxo
+  · intro x hx hxo
+    rw [hS.alive] at hx; rw [hS.orig] at hxo
+    rw [hS.aid, hc, ht, hwo]
+    by_cases hxe : x = o
+    · subst hxe
+      simp
+    · simp only [hxe, hne x hx hxe, ↓reduceIte]
+      exact hI.rwLocked x hx hxo
+  · intro x hx hxo
+    rw [hS.alive] at hx; rw [hS.orig] at hxo
+    rw [hS.aid, ht, hwo, heo, hS.base]
+    by_cases hxe : x = o
+    · subst hxe
+      simp
+    · simp only [hxe, hne x hx hxe, ↓reduceIte]
+      exact hI.rwFree x hx hxo
+  · intro x hx hxo
+    rw [hS.alive] at hx; rw [hS.orig] at hxo
+    rw [hS.aid, ht, hc, hwo, hS.base]
+    by_cases hxe : x = o
+    · subst hxe
+      simp
+    · simp only [hxe, hne x hx hxe, ↓reduceIte, hw]
+      intro h1 h2
+      obtain ⟨hw0, b, hb1, hb2, hb3⟩ := hI.rwWait x hx hxo h1 h2
+      refine ⟨hw0, b, hb1, by rw [hS.aid]; exact hb2, ?_⟩
+      rw [hS.aid, hc]
+      rcases hb3 with h | h
+      · by_cases hbo : b = o
+        · right
+          subst hbo
+          exact ⟨rfl, (hI.baseOk x b hx hb1).2.1, hb2⟩
+        · left
+          simp only [hne b (hI.baseOk x b hx hb1).1 hbo, ↓reduceIte]; exact h
+      · exact h.elim
+  · intro i t hl
+    rw [hS.len]
+    rw [ht] at hl
+    by_cases hi : i = aidOf s o
+    · simp [hi] at hl
+    · simp only [hi, ↓reduceIte] at hl
+      exact hI.trkLt i t hl
+
+/-- `_views_waiting_for_unlock.clear()` when nothing is tracked -/
+theorem inv_clear_waiting {s : State} {m P} (Q : Nat → Nat → Prop) (hI : Inv s m P)
+    (hemp : ∀ i, lookup i s.tracker = none) : Inv { s with waiting := [] } m Q := by
+  constructor
+  · exact hI.aidInj
+  · exact hI.baseOk
+  · exact hI.trkAid
+  · exact hI.trkUniq
+  · intro k v x hv; simp at hv
+  · exact hI.ro
+  · exact hI.rwCnt
+  · exact hI.rwLocked
+  · exact hI.rwFree
+  · intro x hx hxo h1
+    have := hemp (aidOf s x)
+    simp only [show aidOf { s with waiting := [] } x = aidOf s x from rfl] at h1
+    rw [this] at h1; cases h1
+  · exact hI.trkLt
+
+theorem Inv.refine_pend {s : State} {m : Nat → Nat} {P Q : Nat → Nat → Prop} (hI : Inv s m P)
+    (h : ∀ x b, isAlive s x = true → origOf s x = true → lookup (aidOf s x) s.tracker = some x →
+      cget s.counter (aidOf s x) = 0 → P b (aidOf s x) → Q b (aidOf s x)) : Inv s m Q := by
+  refine { hI with rwWait := ?_ }
+  intro o ho hoo h1 h2
+  obtain ⟨hw, b, hb1, hb2, hb3⟩ := hI.rwWait o ho hoo h1 h2
+  exact ⟨hw, b, hb1, hb2, hb3.imp id (h o b ho hoo h1 h2)⟩
+
+/-- `waiting[bid].remove(v)` is harmless when no live array with address `v` is tracked -/
+theorem inv_wremove {s : State} {m P} (hI : Inv s m P) (bid v : Nat)
+    (hno : ∀ x, isAlive s x = true → aidOf s x = v → lookup v s.tracker = some x → False) :
+    Inv { s with waiting := wremove bid v s.waiting } m P := by
+  constructor
+  · exact hI.aidInj
+  · exact hI.baseOk
+  · exact hI.trkAid
+  · exact hI.trkUniq
+  · intro k v' x hv hx hxa
+    exact hI.waitOk k v' x ((mem_wget_wremove _ _ _ _ _).mp hv).1 hx hxa
+  · exact hI.ro
+  · exact hI.rwCnt
+  · exact hI.rwLocked
+  · exact hI.rwFree
+  · intro x hx hxo h1 h2
+    obtain ⟨hw0, b, hb1, hb2, hb3⟩ := hI.rwWait x hx hxo h1 h2
+    refine ⟨hw0, b, hb1, ?_, hb3⟩
+    apply (mem_wget_wremove _ _ _ _ _).mpr
+    refine ⟨hb2, fun ⟨_, hv⟩ => ?_⟩
+    have hv' : aidOf s x = v := hv
+    exact hno x hx hv' (by rw [← hv']; exact h1)
+  · exact hI.trkLt
+
+/-- dropping a tracker entry whose weak reference is dead -/
+theorem inv_tracker_erase_dead {s : State} {m P} (hI : Inv s m P) (v t : Nat)
+    (hl : lookup v s.tracker = some t) (hd : isAlive s t = false) :
+    Inv { s with tracker := erase v s.tracker } m P := by
+  have hne : ∀ x, isAlive s x = true → aidOf s x ≠ v := by
+    intro x hx e
+    have := hI.trkUniq v t x hl hx e
+    rw [this, hx] at hd; cases hd
+  have hlk : ∀ x, isAlive s x = true → lookup (aidOf s x) (erase v s.tracker) = lookup (aidOf s x) s.tracker := by
+    intro x hx; rw [lookup_erase]; simp [hne x hx]
+  constructor
+  · exact hI.aidInj
+  · exact hI.baseOk
+  · intro i t' hl' hta
+    have hl'' : lookup i (erase v s.tracker) = some t' := hl'
+    rw [lookup_erase] at hl''
+    by_cases hi : i = v
+    · simp [hi] at hl''
+    · simp only [hi, ↓reduceIte] at hl''
+      exact hI.trkAid i t' hl'' hta
+  · intro i t' x hl' hx hxa
+    have hl'' : lookup i (erase v s.tracker) = some t' := hl'
+    rw [lookup_erase] at hl''
+    by_cases hi : i = v
+    · simp [hi] at hl''
+    · simp only [hi, ↓reduceIte] at hl''
+      exact hI.trkUniq i t' x hl'' hx hxa
+  · exact hI.waitOk
+  · intro x hx hxo
+    have := hI.ro x hx hxo
+    exact ⟨this.1, this.2.1, (hlk x hx).trans this.2.2⟩
+  · exact hI.rwCnt
+  · intro x hx hxo hc
+    have := hI.rwLocked x hx hxo hc
+    exact ⟨(hlk x hx).trans this.1, this.2⟩
+  · intro x hx hxo hl'
+    exact hI.rwFree x hx hxo ((hlk x hx).symm.trans hl')
+  · intro x hx hxo hl'
+    exact hI.rwWait x hx hxo ((hlk x hx).symm.trans hl')
+  · intro i t' hl'
+    have hl'' : lookup i (erase v s.tracker) = some t' := hl'
+    rw [lookup_erase] at hl''
+    by_cases hi : i = v
+    · simp [hi] at hl''
+    · simp only [hi, ↓reduceIte] at hl''
+      exact hI.trkLt i t' hl''
+
+/-- a waiting view is made writeable and leaves the tracker -/
+theorem inv_unlock_view {s s' : State} {m P} (hI : Inv s m P) {t : Nat} (hta : isAlive s t = true)
+    (hl : lookup (aidOf s t) s.tracker = some t) (hc0 : cget s.counter (aidOf s t) = 0)
+    (hS : SameStatic s s')
+    (hwo : ∀ x, wOf s' x = if x = t then true else wOf s x)
+    (heo : ∀ x, enteredOf s' x = enteredOf s x)
+    (hc : s'.counter = s.counter)
+    (ht : ∀ i, lookup i s'.tracker = if i = aidOf s t then none else lookup i s.tracker)
+    (hw : s'.waiting = s.waiting) : Inv s' m P := by
+  have hne : ∀ x, isAlive s x = true → x ≠ t → aidOf s x ≠ aidOf s t :=
+    fun x hx hxo e => hxo (hI.aidInj x t hx hta e)
+  have horig : origOf s t = true := by
+    cases h : origOf s t with
+    | true => rfl
+    | false => have := (hI.ro t hta h).2.2; rw [hl] at this; cases this
+  constructor
+  · intro o1 o2 h1 h2 e
+    rw [hS.alive] at h1 h2; rw [hS.aid, hS.aid] at e
+    exact hI.aidInj o1 o2 h1 h2 e
+  · intro x b hx hb
+    rw [hS.alive] at hx; rw [hS.base] at hb
+    rw [hS.alive, hS.base, hS.orig, hS.orig]
+    exact hI.baseOk x b hx hb
+  · intro i t' hl' hta'
+    rw [hS.alive] at hta'; rw [hS.aid]
+    rw [ht] at hl'
+    by_cases hi : i = aidOf s t
+    · simp [hi] at hl'
+    · simp only [hi, ↓reduceIte] at hl'
+      exact hI.trkAid i t' hl' hta'
+  · intro i t' x hl' hx hxa
+    rw [hS.alive] at hx; rw [hS.aid] at hxa
+    rw [ht] at hl'
+    by_cases hi : i = aidOf s t
+    · simp [hi] at hl'
+    · simp only [hi, ↓reduceIte] at hl'
+      exact hI.trkUniq i t' x hl' hx hxa
+  · intro k v x hv hx hxa
+    rw [hw] at hv; rw [hS.alive] at hx; rw [hS.aid] at hxa
+    obtain ⟨b, hb1, hb2⟩ := hI.waitOk k v x hv hx hxa
+    exact ⟨b, by rw [hS.base]; exact hb1, by rw [hS.aid]; exact hb2⟩
+  · intro x hx hxo
+    rw [hS.alive] at hx; rw [hS.orig] at hxo
+    have hxne : x ≠ t := fun e => by rw [e, horig] at hxo; cases hxo
+    rw [hS.aid, hwo, hc, ht]
+    simp only [hxne, hne x hx hxne, ↓reduceIte]
+    exact hI.ro x hx hxo
+  · intro x hx hxo
+    rw [hS.alive] at hx; rw [hS.orig] at hxo
+    rw [hS.aid, hc]
+    exact hI.rwCnt x hx hxo
+  · intro x hx hxo
+    rw [hS.alive] at hx; rw [hS.orig] at hxo
+    rw [hS.aid, hc, ht, hwo]
+    by_cases hxe : x = t
+    · subst hxe
+      intro h; omega
+    · simp only [hxe, hne x hx hxe, ↓reduceIte]
+      exact hI.rwLocked x hx hxo
+  · intro x hx hxo
+    rw [hS.alive] at hx; rw [hS.orig] at hxo
+    rw [hS.aid, ht, hwo, heo, hS.base]
+    by_cases hxe : x = t
+    · subst hxe
+      simp
+    · simp only [hxe, hne x hx hxe, ↓reduceIte]
+      exact hI.rwFree x hx hxo
+  · intro x hx hxo
+    rw [hS.alive] at hx; rw [hS.orig] at hxo
+    rw [hS.aid, ht, hc, hwo, hS.base]
+    by_cases hxe : x = t
+    · subst hxe
+      simp
+    · simp only [hxe, hne x hx hxe, ↓reduceIte, hw]
+      intro h1 h2
+      obtain ⟨hw0, b, hb1, hb2, hb3⟩ := hI.rwWait x hx hxo h1 h2
+      exact ⟨hw0, b, hb1, by rw [hS.aid]; exact hb2, by rw [hS.aid]; exact hb3⟩
+  · intro i t' hl'
+    rw [hS.len]
+    rw [ht] at hl'
+    by_cases hi : i = aidOf s t
+    · simp [hi] at hl'
+    · simp only [hi, ↓reduceIte] at hl'
+      exact hI.trkLt i t' hl'
+
+/-- the loop over the views that wait for base `o`, which has just become writeable -/
+theorem unlockViews_inv {m : Nat → Nat} (o bid : Nat) : ∀ (L : List Nat) (s : State),
+    Inv s m (fun b i => b = o ∧ i ∈ L) → isAlive s o = true → wOf s o = true → bid = aidOf s o →
+    (∀ v ∈ L, v ∈ wget s.waiting bid ∨ lookup v s.tracker = none) →
+    Inv (unlockViews bid L s) m (fun _ _ => False) ∧ SameStatic s (unlockViews bid L s) ∧
+      (unlockViews bid L s).holds = s.holds := by
+  intro L
+  induction L with
+  | nil =>
+    intro s hI _ _ _ _
+    exact ⟨hI.mono_pend (fun b i h => by simp at h), SameStatic.refl s, rfl⟩
+  | cons v vs ih =>
+    intro s hI ho hwo hbid hJ
+    unfold unlockViews
+    by_cases hcv : 0 < cget s.counter v
+    · simp only [hcv, ↓reduceIte]
+      refine ih s (hI.refine_pend ?_) ho hwo hbid (fun v' hv' => hJ v' (List.mem_cons_of_mem _ hv'))
+      intro x b _ _ _ hc0 ⟨hb, hmem⟩
+      refine ⟨hb, ?_⟩
+      rcases List.mem_cons.mp hmem with h | h
+      · rw [h] at hc0; omega
+      · exact h
+    · simp only [hcv, ↓reduceIte]
+      have hcv0 : cget s.counter v = 0 := by omega
+      cases hl : lookup v s.tracker with
+      | none =>
+        simp only [hl]
+        have hI1 : Inv { s with waiting := wremove bid v s.waiting } m (fun b i => b = o ∧ i ∈ vs) := by
+          refine (inv_wremove hI bid v (fun x _ _ h => by rw [hl] at h; cases h)).refine_pend ?_
+          intro x b _ _ htx _ ⟨hb, hmem⟩
+          refine ⟨hb, ?_⟩
+          rcases List.mem_cons.mp hmem with h | h
+          · have htx' : lookup (aidOf s x) s.tracker = some x := htx
+            have h' : aidOf s x = v := h
+            rw [h', hl] at htx'; cases htx'
+          · exact h
+        obtain ⟨r1, r2, r3⟩ := ih _ hI1 ho hwo hbid (by
+          intro v' hv'
+          rcases hJ v' (List.mem_cons_of_mem _ hv') with h | h
+          · by_cases e : v' = v
+            · right; rw [e]; exact hl
+            · left; exact (mem_wget_wremove _ _ _ _ _).mpr ⟨h, fun ⟨_, e'⟩ => e e'⟩
+          · right; exact h)
+        exact ⟨r1, (show SameStatic s { s with waiting := wremove bid v s.waiting } from sameStatic_of_arrs rfl).trans r2, r3⟩
+      | some t =>
+        simp only [hl]
+        have hvmem : v ∈ wget s.waiting bid := by
+          rcases hJ v (List.mem_cons_self ..) with h | h
+          · exact h
+          · rw [hl] at h; cases h
+        cases hta : isAlive s t with
+        | false =>
+          have hta' : isAlive { s with waiting := wremove bid v s.waiting, tracker := erase v s.tracker } t = false := hta
+          simp only [hta', Bool.false_eq_true, ↓reduceIte]
+          have hI1 : Inv { s with waiting := wremove bid v s.waiting, tracker := erase v s.tracker } m
+              (fun b i => b = o ∧ i ∈ vs) := by
+            have h1 := inv_tracker_erase_dead hI v t hl hta
+            have h2 := inv_wremove h1 bid v (fun x _ _ h => by
+              have h' : lookup v (erase v s.tracker) = some x := h
+              rw [lookup_erase] at h'; simp at h')
+            refine h2.refine_pend ?_
+            intro x b _ _ htx _ ⟨hb, hmem⟩
+            refine ⟨hb, ?_⟩
+            rcases List.mem_cons.mp hmem with h | h
+            · have htx' : lookup (aidOf s x) (erase v s.tracker) = some x := htx
+              have h' : aidOf s x = v := h
+              rw [h', lookup_erase] at htx'; simp at htx'
+            · exact h
+          obtain ⟨r1, r2, r3⟩ := ih _ hI1 ho hwo hbid (by
+            intro v' hv'
+            show v' ∈ wget (wremove bid v s.waiting) bid ∨ lookup v' (erase v s.tracker) = none
+            rw [lookup_erase]
+            by_cases e : v' = v
+            · right; simp [e]
+            · rcases hJ v' (List.mem_cons_of_mem _ hv') with h | h
+              · left; exact (mem_wget_wremove _ _ _ _ _).mpr ⟨h, fun ⟨_, e'⟩ => e e'⟩
+              · right; simp [e, h])
+          exact ⟨r1, (show SameStatic s { s with waiting := wremove bid v s.waiting, tracker := erase v s.tracker } from sameStatic_of_arrs rfl).trans r2, r3⟩
+        | true =>
+          have hta' : isAlive { s with waiting := wremove bid v s.waiting, tracker := erase v s.tracker } t = true := hta
+          simp only [hta', ↓reduceIte]
+          have htaid : aidOf s t = v := hI.trkAid v t hl hta
+          -- the view's base is `o`
+          obtain ⟨b, hb, hbaid⟩ := hI.waitOk bid v t hvmem hta htaid
+          have hbo : b = o := hI.aidInj b o (hI.baseOk t b hta hb).1 ho (hbaid.trans hbid)
+          subst hbo
+          have hset : trySetWriteable { s with waiting := wremove bid v s.waiting, tracker := erase v s.tracker } t =
+              modArr { s with waiting := wremove bid v s.waiting, tracker := erase v s.tracker } t setWt := by
+            rw [trySet_eq _ t hta']
+            have : baseOf { s with waiting := wremove bid v s.waiting, tracker := erase v s.tracker } t = some b := hb
+            simp only [this]
+            have : wOf { s with waiting := wremove bid v s.waiting, tracker := erase v s.tracker } b = true := hwo
+            simp [this]
+          rw [hset]
+          have hlt : lookup (aidOf s t) s.tracker = some t := by rw [htaid]; exact hl
+          have hI1 : Inv (modArr { s with tracker := erase v s.tracker } t setWt) m (fun b' i => b' = b ∧ i ∈ v :: vs) := by
+            refine inv_unlock_view hI hta hlt (by rw [htaid]; exact hcv0)
+              (by apply sameStatic_modArr'; rfl; exact flagOnly_setW true) ?_ ?_ rfl ?_ rfl
+            · intro x
+              by_cases hx : x = t
+              · subst hx; simp only [↓reduceIte]; exact wOf_setW_self _ x true hta
+              · simp only [hx, ↓reduceIte]; rw [wOf_modArr_ne _ _ _ _ hx]; rfl
+            · intro x; exact enteredOf_setW _ t x true
+            · intro i; simp only [tracker_modArr, lookup_erase, htaid]
+          have hI2 : Inv (modArr { s with waiting := wremove bid v s.waiting, tracker := erase v s.tracker } t setWt) m
+              (fun b' i => b' = b ∧ i ∈ vs) := by
+            have h2 := inv_wremove hI1 bid v (fun x _ _ h => by
+              have h' : lookup v (erase v s.tracker) = some x := h
+              rw [lookup_erase] at h'; simp at h')
+            refine Inv.refine_pend (s := modArr { s with waiting := wremove bid v s.waiting, tracker := erase v s.tracker } t setWt) h2 ?_
+            intro x b' _ _ htx _ ⟨hb', hmem⟩
+            refine ⟨hb', ?_⟩
+            rcases List.mem_cons.mp hmem with h | h
+            · have htx' : lookup (aidOf (modArr { s with waiting := wremove bid v s.waiting, tracker := erase v s.tracker } t setWt) x)
+                  (erase v s.tracker) = some x := htx
+              have h' : aidOf (modArr { s with waiting := wremove bid v s.waiting, tracker := erase v s.tracker } t setWt) x = v := h
+              rw [h', lookup_erase] at htx'; simp at htx'
+            · exact h
+          have hS2 : SameStatic s (modArr { s with waiting := wremove bid v s.waiting, tracker := erase v s.tracker } t setWt) := by
+            apply sameStatic_modArr'; rfl; exact flagOnly_setW true
+          obtain ⟨r1, r2, r3⟩ := ih _ hI2 (by rw [hS2.alive]; exact ho)
+            (by
+              by_cases hx : b = t
+              · rw [hx]; exact wOf_setW_self _ t true hta'
+              · rw [wOf_modArr_ne _ _ _ _ hx]; exact hwo)
+            (by rw [hS2.aid]; exact hbid)
+            (by
+              intro v' hv'
+              show v' ∈ wget (wremove bid v s.waiting) bid ∨ lookup v' (erase v s.tracker) = none
+              rw [lookup_erase]
+              by_cases e : v' = v
+              · right; simp [e]
+              · rcases hJ v' (List.mem_cons_of_mem _ hv') with h | h
+                · left; exact (mem_wget_wremove _ _ _ _ _).mpr ⟨h, fun ⟨_, e'⟩ => e e'⟩
+                · right; simp [e, h])
+          exact ⟨r1, hS2.trans r2, r3⟩
 
 end MG.Lock
